@@ -168,6 +168,26 @@ def check_offset(L, a, k):
     return fails
 
 
+def check_offset_site(L, position, strand, k):
+    site = F(position, position, strand)
+    fails = []
+    for wrap in (L, None):
+        if wrap is None and position + k < 0:
+            continue
+        try:
+            res = offset_location(site, k, wrap_point=wrap)
+        except AssertionError as err:
+            fails.append(("offset-site-assert", f"wrap={wrap}: {repr(err)[:80]}"))
+            continue
+        except Exception as err:  # pylint: disable=broad-except
+            fails.append(("offset-site-raised", f"wrap={wrap}: {repr(err)[:80]}"))
+            continue
+        want = {(position + k) % L, (position + k) % L or L} if wrap else {position + k}      # (on a ring L and 0 are the same site)
+        if len(res.parts) != 1 or int(res.start) != int(res.end) or int(res.start) not in want or res.strand != strand:
+            fails.append(("offset-site", f"wrap={wrap}: {res}"))
+    return fails
+
+
 def check_offset_line(L, a, k):
     try:
         res = offset_location(a, k)
@@ -451,6 +471,16 @@ def run_shard(shard):
                     res.fail(case, clause, detail)
                 if res.evals % 1999 == 1:
                     res.sample(case)
+        # a site between two bases ("40^41" in a GenBank file) covers no base: shifting it moves the site, nothing else
+        for position in range(L + 1):
+            for strand in (1, -1, None):
+                for k in range(-L, L + 1):
+                    res.evals += 1
+                    res.nontrivial += 1 if k % L else 0
+                    case = {"op": "offset-site", "L": L, "a": position, "strand": strand, "k": k}
+                    for clause, detail in check_offset_site(L, position, strand, k):
+                        res.fail(case, clause, detail)
+                    res.buckets["offset:between-bases-site"] += 1
         for a in simple(L, 1) + simple(L, -1):
             for k in range(-int(a.start), L - int(a.end) + 1):
                 res.evals += 1
@@ -656,6 +686,8 @@ def replay(case):
             if enc(again) != enc(out):
                 fails.append(("connect-idempotent", f"{out} -> {again}"))
         return fails
+    if op == "offset-site":
+        return check_offset_site(L, case["a"], case["strand"], case["k"])
     if op == "offset":
         return check_offset(L, dec(case["a"]), case["k"])
     if op == "offset-line":
